@@ -331,7 +331,11 @@ func faultedStreams(base []byte, rng *splitmix, maxExhaustive int, samples int, 
 		nl := "\n"
 		var b []byte
 		kind := ""
-		switch rng.intn(8) {
+		switch rng.intn(10) {
+		case 8, 9:
+			// numbers at the edge of what a float64 holds: well-formed literals all the same
+			lit := []string{"1" + strings.Repeat("0", 309), strings.Repeat("9", 400), "0." + strings.Repeat("0", 400) + "1", "1" + strings.Repeat("0", 308), "179769313486231580793728971405303415079934132710037826936173778980444968292764750946649017977587207096330286416692887910946555547851940402630657488671505820681908902000708383676273854845817711531764475730270069855571366959622842914819860834936475292719074168444365510704342711559699508093042880177904174497792"}[rng.intn(5)]
+			kind, b = "number_literal_at_the_edge_of_float64", append(append([]byte{}, base...), []byte(nl+"title: Zz"+nl+"---"+nl+"<<set $zz = "+lit+">>"+nl+"{"+lit+" + 1}"+nl+"===")...)
 		case 6, 7:
 			kind, b = "file_tags_first", append([]byte("#version:2 #draft"+nl+"#other"+nl), base...)
 		case 0:
